@@ -219,3 +219,22 @@ def check(ctx, w, interesting, rule="R13.9"):
                 "WatchedPath compares and hashes field-wise over (path, recursive)", loc, detail="%s %s" % (fields, der),
                 fail="WatchedPath's equality/hash is no longer the derived field-wise one over (path, recursive) (%s): a path whose recursion mode "
                      "changes is `already registered` for the diff and keeps its old mode" % der)
+
+    # constructors: only non_recursive() yields a non-recursive element; the path is the given one
+    n_c = 0
+    for fn in ctx.facts.crate_fns("watchexec"):
+        if not fn.def_.startswith(("watchexec::watched_path::", "<watchexec::watched_path::")) and "watched_path::WatchedPath" not in fn.def_:
+            continue
+        if not (fn.thir and thir.root(fn) is not None):
+            continue
+        v = thir.expr_value(thir.root(fn))
+        if not (v[0] == "v" and v[2] == "WatchedPath" and v[1].endswith("WatchedPath")) or (fn.impl_trait and fn.impl_trait.endswith(("Default", "Clone"))):
+            continue
+        n_c += 1
+        want_rec = not fn.def_.endswith("::non_recursive")
+        pv = v[3].get("path")
+        okp = pv == ("var", "path") or (isinstance(pv, tuple) and pv[0] == "call" and strip_generics(pv[1]).endswith("Into::into") and pv[2] == [("var", "path")])
+        ctx.require(v[3].get("recursive") == ("b", want_rec) and okp, rule, "element:ctor:" + fn.def_.split("watched_path::")[-1][:60],
+                    "%s builds {path: the given path, recursive: %s}" % (fn.def_.split("::")[-1], str(want_rec).lower()), fn.loc(fn.line), detail=str(v[3])[:160],
+                    fail="%s builds a WatchedPath with recursive = %s / path %s: the configured recursion mode is not the one registered" % (fn.def_, v[3].get("recursive"), pv))
+    ctx.floor(rule, "WatchedPath constructors", n_c, 6)
